@@ -1531,10 +1531,10 @@ func (e *Env) quant(x *Expr) Val {
 				// witnesses that hypotheses have named so far: instances of a goal existential only
 				// (they are never used to instantiate universals, so nothing cascades)
 				wt := tr.witTerms
-				if len(wt) > 12 {
-					wt = wt[len(wt)-12:]
+				if len(wt) > 32 {
+					wt = wt[len(wt)-32:]
 				}
-				cands = append(cands, tr.candidatesOf(wt, srt)...)
+				cands = append(cands, tr.candidatesOfN(wt, srt, 32)...)
 			}
 		}
 		if x.Op == "exists" && e.pol > 0 && e.instOnly == nil && tr.deferEx {
@@ -1545,7 +1545,7 @@ func (e *Env) quant(x *Expr) Val {
 			base := append([]string{}, cands...)
 			tr.deferredEx = append(tr.deferredEx, func() string {
 				all := append([]string{}, base...)
-				all = append(all, tr.candidatesOf(tr.obWit, srt)...)
+				all = append(all, tr.candidatesOfN(tr.obWit, srt, 64)...)
 				var ds []string
 				dseen := map[string]bool{}
 				for _, c := range all {
@@ -1602,6 +1602,12 @@ func (tr *FnTrans) candidates(srt string) []string {
 }
 
 func (tr *FnTrans) candidatesOf(cands []Val, srt string) []string {
+	return tr.candidatesOfN(cands, srt, 10)
+}
+
+// candidatesOfN: at most limit of the most recent candidate terms of the given sort (each with its
+// neighbours +-1 when it is an integer).
+func (tr *FnTrans) candidatesOfN(cands []Val, srt string, limit int) []string {
 	var out []string
 	add := func(t string) {
 		out = append(out, t)
@@ -1613,7 +1619,7 @@ func (tr *FnTrans) candidatesOf(cands []Val, srt string) []string {
 		}
 	}
 	n := 0
-	for i := len(cands) - 1; i >= 0 && n < 10; i-- {
+	for i := len(cands) - 1; i >= 0 && n < limit; i-- {
 		c := cands[i]
 		if tr.smt.sortOf(c.Ty) != srt {
 			continue
